@@ -102,19 +102,36 @@ InList(ts, i) == LET o == OpenerOf(ts, i, 1, <<>>) IN
   o > 0 /\ (ts[o] = "[" \/ (ts[o] = "(" /\ ~(o > 2 /\ ts[o - 2] = "function")))
 NoOperandPair(ts) == \A i \in 1..(Len(ts) - 1) : ~(IsOperand(ts[i]) /\ IsOperand(ts[i+1]) /\ InList(ts, i + 1))
 
-WellFormed(ts) == /\ NoIllegal(ts) /\ Balanced(ts) /\ NoBinBin(ts) /\ NoLiteralAssign(ts)
-                  /\ ReturnInFn(ts) /\ BreakInLoop(ts) /\ KwAtStart(ts) /\ NoOperandPair(ts)
+\* the "}" that closes an object literal (a "{" that follows "=", ":", ",", "(", "[" or an operator, i.e. stands
+\* where an operand is expected) ends an operand: on the same line it is not followed by a statement keyword
+\* or by another operand
+RECURSIVE CloserOf(_, _, _)
+CloserOf(ts, j, depth) ==      \* index of the bracket that closes the one opened just before j (0: none)
+  IF j > Len(ts) THEN 0
+  ELSE IF ts[j] \in Openers THEN CloserOf(ts, j + 1, depth + 1)
+  ELSE IF ts[j] \in Closers THEN (IF depth = 0 THEN j ELSE CloserOf(ts, j + 1, depth - 1))
+  ELSE CloserOf(ts, j + 1, depth)
+ObjOpen(ts, i) == ts[i] = "{" /\ i > 1 /\ ts[i-1] \in ({"=", ":", ",", "(", "[", "+", "return", "print"} \cup AssignOps)
+NoStmtAfterObject(ts) == \A i \in 1..Len(ts) : ObjOpen(ts, i) =>
+  LET c == CloserOf(ts, i + 1, 0) IN
+  (c > 0 /\ c < Len(ts)) => ~(ts[c+1] \in StmtKw \/ IsOperand(ts[c+1]))
+
+\* (the last condition holds only while the tokens stay on one line: a line break after the "}" separates)
+WellFormedAnyLayout(ts) == /\ NoIllegal(ts) /\ Balanced(ts) /\ NoBinBin(ts) /\ NoLiteralAssign(ts)
+                           /\ ReturnInFn(ts) /\ BreakInLoop(ts) /\ KwAtStart(ts) /\ NoOperandPair(ts)
+WellFormed(ts) == WellFormedAnyLayout(ts) /\ NoStmtAfterObject(ts)
 
 Catalogue == << <<"@">>, <<")">>, <<"]">>, <<"}">>, <<"(">>, <<"==", "*">>, <<"1", "=", "2">>, <<"return">>, <<"break">>, <<"continue">>,
                 <<"print", "1">>, <<"next">>, <<"exit">>, <<"if", "(", "1", ")", "{", "}">>, <<"while", "(", "0", ")", "{", "}">>, <<"return", "1">> >>
 
 VARIABLES h, pos, sp, done
 vars == <<h, pos, sp, done>>
-Init == h \in 1..Len(Hosts) /\ sp \in (0 - 1)..Len(Catalogue) /\ pos = 0 /\ done = FALSE
+Init == h \in 1..Len(Hosts) /\ sp \in (0 - 2)..Len(Catalogue) /\ pos = 0 /\ done = FALSE
 \* sp = 0: delete a closing bracket at pos; sp = -1: delete a comma or an operator between two operands at pos;
 \* sp > 0: insert Catalogue[sp] after token pos
 Next == /\ ~done /\ done' = TRUE /\ UNCHANGED <<h, sp>>
         /\ pos' \in IF sp = 0 THEN {i \in 1..Len(Hosts[h]) : Hosts[h][i] \in Closers}
+                     ELSE IF sp = 0 - 2 THEN {i \in 2..(Len(Hosts[h]) - 1) : Hosts[h][i] = ";"}     \* sp = -2: delete a ";"
                      ELSE IF sp < 0 THEN {i \in 2..(Len(Hosts[h]) - 1) : Hosts[h][i] \in {",", "+", "*", "<", ">", "=", "~"}}
                      ELSE 0..Len(Hosts[h])
 
@@ -132,5 +149,5 @@ Applicable == /\ ~(sp > 0 /\ Head(Catalogue[sp]) \in StmtKw /\ WellFormed(Splice
 HostsWellFormed == \A i \in 1..Len(Hosts) : WellFormed(Hosts[i])
 SplicedIllFormed == (done /\ Applicable) => ~WellFormed(Spliced)
 Vec == (done /\ Applicable /\ ~WellFormed(Spliced)) =>
-  Emit([host |-> h, pos |-> pos, splice |-> sp, toks |-> Spliced])
+  Emit([host |-> h, pos |-> pos, splice |-> sp, toks |-> Spliced, oneline |-> WellFormedAnyLayout(Spliced)])
 =============================================================================
